@@ -46,6 +46,10 @@ THEOREMS_C16_WINDOW = [
      "the same for the LITERAL set-up (clipping loop, finally) and the dates a user writes for the flat assets: Python's max of the starts / min of the ends (flatWinD), on a grid whose localisation is monotone"),
     (M, 'EAO.C16W.flat_steps_same',
      'any depth: a chain of flattening steps (one structure opened per step - structure in structure in ...; wrapped scaled assets stay objects) leads to the same assembled problem, under the separation hypothesis at each step'),
+    (M, 'EAO.C16W.flatten_all_same',
+     'any depth at once: flattenAll opens every structured asset of the object tree (scaled assets stay objects, windows = own window clipped by all enclosing wrappers); under ONE decidable tree-level condition treeSepOk (inner node names of every structure occur nowhere outside it and are not skipped; dispatch rows at own nodes) the portfolio with wrappers and the flat portfolio build the same assembled problem'),
+    (M, 'EAO.C16W.flatten_all_same_dates',
+     'the same for a flat portfolio whose start / end are written as any dates standing for the same instants (e.g. the naive dates max / min give)'),
     (M, 'EAO.C16W.scaled_window_builds',
      "a ScaledAsset with window ws builds P iff the base, set up on its own with window base ∩ ws, builds bp and P = buildScaled(bp, duration of the scaled asset's OWN window ws ∩ horizon)"),
     (M, 'EAO.C16W.scaled_window_flat',
